@@ -7,6 +7,7 @@ import (
 	"reflect"
 	"strings"
 	"sync"
+	"time"
 
 	am "github.com/hashicorp/go-argmapper"
 )
@@ -266,6 +267,8 @@ type Event struct {
 	Args []ArgObs
 	Outs []int64
 	Err  error
+	// EnterNs/ExitNs: monotonic timestamps of body entry and exit
+	EnterNs, ExitNs int64
 }
 
 func (e *Event) String() string {
@@ -297,10 +300,25 @@ type World struct {
 	errs    map[error]int // error values returned by bodies -> event seq
 	planned bool          // set while a Redefine is in progress (C09)
 	inPlan  []int         // events logged while planned (must stay empty)
+	t0      time.Time
+	// Delay, when set (before any goroutine uses the world), is called at
+	// body entry to widen the window between entry and exit.
+	Delay func(fi int)
 }
 
 func NewWorld() *World {
-	return &World{origin: map[int64]*Origin{}, execs: map[int]int{}, specs: map[int]FuncSpec{}, errs: map[error]int{}}
+	return &World{origin: map[int64]*Origin{}, execs: map[int]int{}, specs: map[int]FuncSpec{}, errs: map[error]int{}, t0: time.Now()}
+}
+
+// Now is the world's monotonic clock in nanoseconds.
+func (w *World) Now() int64 { return int64(time.Since(w.t0)) }
+
+func (w *World) enter(fi int) int64 {
+	t := w.Now()
+	if d := w.Delay; d != nil {
+		d(fi)
+	}
+	return t
 }
 
 func (w *World) freshLocked(o *Origin) int64 {
@@ -366,10 +384,11 @@ func (w *World) IsBodyError(err error) bool {
 
 // record logs one execution; args are what the body observed. It returns the
 // fresh output values and the error to return (nil if none).
-func (w *World) record(fi int, spec *FuncSpec, obs []ArgObs, concs []int) ([]reflect.Value, error) {
+func (w *World) record(fi int, spec *FuncSpec, obs []ArgObs, concs []int, enterNs int64) ([]reflect.Value, error) {
 	w.mu.Lock()
 	defer w.mu.Unlock()
-	ev := &Event{Seq: len(w.events), Func: fi, Exec: w.execs[fi], Args: obs}
+	ev := &Event{Seq: len(w.events), Func: fi, Exec: w.execs[fi], Args: obs, EnterNs: enterNs}
+	defer func() { ev.ExitNs = w.Now() }()
 	w.execs[fi]++
 	from := make([]int64, len(obs))
 	for i, a := range obs {
@@ -493,6 +512,7 @@ func (w *World) Build(fi int, spec FuncSpec, r *rand.Rand, extra ...am.Arg) (*Bu
 		}
 		sp := spec
 		cb := func(in, out *am.ValueSet) error {
+			enterNs := w.enter(fi)
 			vals := in.Values()
 			obs := make([]ArgObs, len(sp.In))
 			for i, l := range sp.In {
@@ -503,7 +523,7 @@ func (w *World) Build(fi int, spec FuncSpec, r *rand.Rand, extra ...am.Arg) (*Bu
 					obs[i] = ArgObs{l, -1, -1}
 				}
 			}
-			outs, ferr := w.record(fi, &sp, obs, concs)
+			outs, ferr := w.record(fi, &sp, obs, concs, enterNs)
 			for i, l := range sp.Out {
 				var v *am.Value
 				if l.Name != "" {
@@ -551,6 +571,7 @@ func (w *World) Build(fi int, spec FuncSpec, r *rand.Rand, extra ...am.Arg) (*Bu
 	ft := reflect.FuncOf(inT, outT, false)
 	sp := spec
 	fn := reflect.MakeFunc(ft, func(args []reflect.Value) []reflect.Value {
+		enterNs := w.enter(fi)
 		obs := make([]ArgObs, len(sp.In))
 		switch sp.InForm {
 		case FormPos:
@@ -577,7 +598,7 @@ func (w *World) Build(fi int, spec FuncSpec, r *rand.Rand, extra ...am.Arg) (*Bu
 				}
 			}
 		}
-		outs, ferr := w.record(fi, &sp, obs, concs)
+		outs, ferr := w.record(fi, &sp, obs, concs, enterNs)
 		var res []reflect.Value
 		switch sp.OutForm {
 		case FormPos:
@@ -655,13 +676,17 @@ func Instantiate(s Scenario, r *rand.Rand) (*Inst, error) {
 		}
 		seen[b.Type] = true
 		in.Convs = append(in.Convs, b)
-		switch c.Deliver {
+		deliver := c.Deliver
+		if c.Once && deliver == DelRaw {
+			// Converter(raw) wraps the raw function in a fresh Func on every
+			// application, which cannot carry the run-once option
+			deliver = DelFunc
+		}
+		switch deliver {
 		case DelRaw:
 			if b.Raw == nil {
 				in.ConvArgs = append(in.ConvArgs, am.ConverterFunc(b.Func))
 			} else {
-				var ropts []interface{}
-				_ = ropts
 				in.ConvArgs = append(in.ConvArgs, am.Converter(b.Raw))
 			}
 		case DelGen:
